@@ -127,7 +127,7 @@ CHECKS['C19'] = {
     'level_text': 'Proof for the claimed accessors, for all packets (whatever was stored before): get/set_method and get/set_status agree with the code field for every variant and every code byte (unnamed ones read as UnKnown); set_content_format replaces the Content-Format option by the minimal uint of the registry id and get_content_format returns the registry entry of the first value (None if absent, longer than 2 bytes or unassigned); set_observe_flag / get_observe_flag likewise through the Observe option (values longer than 4 bytes or other than 0/1 give Err). Unit path: set_path(s) leaves exactly the pieces of s between \'/\' (minus the empty piece before a leading \'/\') as Uri-Path values, in order, and nothing else changed; get_path returns the valid-UTF-8 values joined by \'/\'; theorem: get_path after set_path(s) returns s without one leading \'/\', for every string. Units cmv / cmv2 (coap-message 0.3 / 0.2 views): code() / payload() return the header code and the payload, set_code / set_payload / add_option write exactly those fields (add_option appends to the list of its option number), and the option iterator options() / MessageOptionAdapter::next yields every stored value exactly once as (number, value), grouped by number in ascending number order, values in their stored order, and terminates.',
     'level_note': 'Trusted: as C07. Unit path assumes contracts for the std string functions (str::split(char) == split_on, [&str]::join == join_with, as_bytes/from_utf8 inverse on text, is_empty, to_string) and reads `for (i, s) in segs.enumerate()` as the equivalent index loop (R32). Units cmv/cmv2 read each `impl Trait for Packet` block of impl_coap_message*.rs as an inherent impl with methods renamed cm_* (R39): the traits are declared in an external crate that a single-file Verus run cannot link; the crate\'s generic copy routine (set_from_message) is external code and not verified. NOT covered (reported in evidence): get_path_as_vec and the remaining coap-message 0.2/0.3 trait views (external crates cannot be linked into single-file Verus; packet-level Kani harnesses too expensive).',
     'trusted': [T_VERUS, T_R1, T_DEF, T_CLOS, T_UINT, 'std string functions used by set_path/get_path (str::split(char), Enumerate, str::is_empty, str::as_bytes, core::str::from_utf8, [&str]::join, str::to_string): contracts assumed in unit path over the spec functions split_on / join_with / utf8_bytes / utf8_text (UTF-8 decoding inverts encoding: axiom)'],
-    'not_covered': ['get_path_as_vec (iterator adapters)', 'coap-message: MutableWritableMessage (payload_mut_with_len, truncate, mutate_options) and the external crate\'s generic copy routine set_from_message'],
+    'not_covered': ['get_path_as_vec (iterator adapters)', 'coap-message: mutate_options (nested iter_mut with a callback), the result slice of payload_mut_with_len (only panic freedom is checked) and the external crate\'s generic copy routine set_from_message'],
     'explanation': 'units resp and path (both include the accessor layer of unit acc)',
 }
 
